@@ -25,6 +25,7 @@ with open(os.path.join(d, "README.md"), "w") as f:
     for name, prop, first, needs, sigs in rows:
         f.write(f"| {name} | {prop} | {needs} | {sigs} | {first or 'caught by the check as first built'} |\n")
     n_caught = sum(1 for r in rows if not r[4].startswith("NOT"))
+    n_own = sum(1 for r in rows if r[4].startswith(r[1] + ":") or ("; " + r[1] + ":") in r[4])
     n_first = sum(1 for r in rows if not r[2])
-    f.write(f"\n{n_caught} of {len(rows)} changes are reported by the quick tier of the check for their property; {n_first} of them were caught by the checks as first built, the others led to the strengthening noted in the last column.\n")
+    f.write(f"\n{n_caught} of {len(rows)} changes are reported by the quick tier ({n_own} by the check of the property they were written against, the rest by the check of a neighbouring property named in the table); {n_first} were caught by the checks as first built, the others led to (or were measured after) the strengthening noted in the last column.\n")
 print(len(rows), "seeded changes")
